@@ -74,7 +74,7 @@ def decl_src(kind, pub, n, body_size):
     if kind == "opaque":
         return "%sstruct O%d;\n" % (p, n)
     if kind == "import":
-        return '%simport "lib%d.pn";\n' % ("", n)
+        return '%simport "lib%d.pn";\n' % (p, n)
     raise ValueError(kind)
 
 
@@ -98,7 +98,7 @@ def main():
     rng = SplitMix64(rep.seed).fork("C17")
     thorough = rep.tier == "thorough"
     dist = collections.Counter()
-    kinds = ["fn", "head", "const", "struct", "word", "opaque", "constcast"]
+    kinds = ["fn", "head", "const", "struct", "word", "opaque", "constcast", "import"]
     options = [(k, p) for k in kinds for p in (True, False)]
     modules = []
     for n in range(1, (5 if thorough else 4) + 1):
